@@ -94,4 +94,30 @@ theorem ge_of_largeWarns (P : DtypeRules) (s L : Nat) (hs : P.largeStrict = fals
     omega
   · exact Int.ofNat_le.1 h2
 
+/-- `np.any` over an array: the test fires on an array as soon as it fires on one of its elements -/
+theorem largeWarns_of_mem (P : DtypeRules) (s : Nat) (d : Dtype) (vs : List Int) (v : Int)
+    (hv : v ∈ vs) (h : largeWarns P s d [v] = true) : largeWarns P s d vs = true := by
+  unfold largeWarns at *
+  cases hL : P.largeInput.lookup s with
+  | none => rw [hL] at h; exact Bool.noConfusion h
+  | some large =>
+    rw [hL] at h
+    simp only [List.any_cons, List.any_nil, Bool.or_false, Bool.and_eq_true] at h
+    simp only [Bool.and_eq_true, List.any_eq_true]
+    exact ⟨h.1, v, hv, h.2⟩
+
+/-- … and only then -/
+theorem exists_of_largeWarns (P : DtypeRules) (s : Nat) (d : Dtype) (vs : List Int)
+    (h : largeWarns P s d vs = true) : ∃ v ∈ vs, largeWarns P s d [v] = true := by
+  unfold largeWarns at *
+  cases hL : P.largeInput.lookup s with
+  | none => rw [hL] at h; exact Bool.noConfusion h
+  | some large =>
+    rw [hL] at h
+    simp only [Bool.and_eq_true, List.any_eq_true] at h
+    obtain ⟨h1, v, hv, h2⟩ := h
+    refine ⟨v, hv, ?_⟩
+    simp only [List.any_cons, List.any_nil, Bool.or_false, Bool.and_eq_true]
+    exact ⟨h1, h2⟩
+
 end Unyt.C17L
